@@ -155,7 +155,14 @@ if __name__ == "__main__":
         required=True,
         help="The JSON file containing the settings for the compiler.",
     )
-    parser.add_argument("--lookup", dest="lookup_paths", nargs="*", metavar="PATH", help="Lookup paths.")
+    parser.add_argument(
+        "--lookup",
+        dest="lookup_paths",
+        nargs="*",
+        action="extend",
+        metavar="PATH",
+        help="Lookup paths. Can be given multiple times.",
+    )
     parser.add_argument(
         "--source-map",
         dest="source_map",
